@@ -319,6 +319,9 @@ impl<F: Field, EF: ExtensionField<F>, LG: LookupProtocol> RecursiveAir<F, EF, LG
 /// Requires that the same config (including ZK seed, if using `HidingFriPcs`) is used for
 /// every `prove_next_layer` call that reuses this cache.
 pub struct NextLayerPrepCache<SC: StarkGenericConfig + 'static> {
+    /// Fingerprint of the verification circuit this cache was built for; checked by
+    /// [`prove_next_layer`].
+    pub circuit_fingerprint: AggregationCircuitFingerprint,
     pub circuit_prover_data: Rc<CircuitProverData<SC>>,
     pub prover: BatchStarkProver<SC>,
 }
@@ -414,6 +417,7 @@ where
     );
 
     Ok(NextLayerPrepCache {
+        circuit_fingerprint: aggregation_circuit_fingerprint(verification_circuit),
         circuit_prover_data,
         prover,
     })
@@ -450,6 +454,11 @@ where
     <SC::Pcs as Pcs<SC::Challenge, SC::Challenger>>::Commitment: Sync,
 {
     if let Some(cached) = prep {
+        if cached.circuit_fingerprint != aggregation_circuit_fingerprint(verification_circuit) {
+            return Err(VerificationError::InvalidProofShape(
+                "NextLayerPrepCache was built for a different verification circuit".to_string(),
+            ));
+        }
         let traces = {
             let public_inputs = verifier_result.pack_public_inputs(prev)?;
             let private_inputs = verifier_result.pack_private_inputs(prev)?;
